@@ -458,7 +458,7 @@ def run_job(job):
         parg = job["parg"] if "parg" in job else path_string(sp, cwd)
         roots = sorted([("cwd", cwd), ("nx", NX_ROOT)], key=lambda x: -len(x[1]))
         hdr = {"fmt": job.get("fmt") or "", "path": {k: sp[k] for k in ("root", "dirs", "stem", "exts", "fexists", "dexists")},
-               "mutant": job.get("mut") is not None}
+               "mutant": job.get("mut") is not None, "dcwrapper": bool(job.get("dcwrapper"))}
         out["hdr"] = hdr
         out["parg"] = parg
         old = signal.signal(signal.SIGALRM, _alarm)
@@ -596,8 +596,13 @@ def epub_variant(pkg: bytes, props, layout) -> bytes:
                 + dc("description", "description", ' id="d1"'))
         fixed = '<dc:identifier id="uid">urn:uuid:0</dc:identifier><dc:language>en</dc:language>'
         meta = fixed + (title + rest if layout["titlepos"] == "first" else rest + title)
-        ns = ('xmlns:opf="http://www.idpf.org/2007/opf"' if pre
-              else 'xmlns="http://www.idpf.org/2007/opf" xmlns:opf="http://www.idpf.org/2007/opf"')
+        if layout.get("wrapper") == "dc-metadata":      # OEB 1.x: dc elements in a wrapper, followed by x-metadata
+            meta = f'<{pre}dc-metadata>{meta}</{pre}dc-metadata><{pre}x-metadata><{pre}meta name="x" content="y"/></{pre}x-metadata>'
+        ns = {"opf": 'xmlns:opf="http://www.idpf.org/2007/opf"',
+              "default": 'xmlns="http://www.idpf.org/2007/opf" xmlns:opf="http://www.idpf.org/2007/opf"',
+              "none": 'xmlns:opf="http://www.idpf.org/2007/opf"',
+              "oeb1": 'xmlns="http://openebook.org/namespaces/oeb-package/1.0/" xmlns:opf="http://www.idpf.org/2007/opf"',
+              }[layout["prefix"]]
         return (f'<?xml version="1.0" encoding="utf-8"?><{pre}package {ns} version="{layout["version"]}" '
                 f'unique-identifier="uid"><{pre}metadata xmlns:dc="http://purl.org/dc/elements/1.1/">{meta}</{pre}metadata>'
                 f"<{pre}manifest>{man}</{pre}manifest><{pre}spine>{spine}</{pre}spine></{pre}package>").encode("utf-8")
@@ -880,3 +885,145 @@ def ncr_html(place, ref) -> bytes:
             "<h1>zq0003x</h1><p>zq0001x{body}zq0002x</p><p><img src=\"x.png\" alt=\"pic{alt}p\"></p>"
             "<table><tr><td>c{cell}c</td><td>zq0004x</td></tr><tr><td>zq0005x</td><td>zq0006x</td></tr></table>"
             "</body></html>").format(**w).encode("utf-8")
+
+
+# ----------------------------------------------------------------------------- degenerate-but-accepted inputs
+_GIF = b"GIF89a\x01\x00\x01\x00\x80\x00\x00\x00\x00\x00\xff\xff\xff!\xf9\x04\x01\x00\x00\x00\x00,\x00\x00\x00\x00\x01\x00\x01\x00\x00\x02\x02D\x01\x00;"
+
+
+def _mime(parts, subtype="related", top=b""):
+    import base64
+    b = b"----=_NextPart_C04_degen"
+    out = (b"From: <Saved by test>\r\nSubject: page\r\nMIME-Version: 1.0\r\n" + top
+           + b'Content-Type: multipart/' + subtype.encode() + b'; boundary="' + b + b'"\r\n\r\n')
+    for ctype, payload, extra in parts:
+        out += (b"--" + b + b"\r\nContent-Type: " + ctype + b"\r\nContent-Transfer-Encoding: base64\r\n" + extra + b"\r\n"
+                + base64.encodebytes(payload) + b"\r\n")
+    return out + b"--" + b + b"--\r\n"
+
+
+def _pdf_pages(n_pages):
+    objs = [b"<< /Type /Catalog /Pages 2 0 R >>",
+            b"<< /Type /Pages /Kids [" + b" ".join(b"%d 0 R" % (3 + i) for i in range(n_pages)) + b"] /Count %d >>" % n_pages]
+    for _ in range(n_pages):
+        objs.append(b"<< /Type /Page /Parent 2 0 R /MediaBox [0 0 612 792] >>")
+    out = bytearray(b"%PDF-1.4\n%\xe2\xe3\xcf\xd3\n")
+    offs = []
+    for i, body in enumerate(objs, start=1):
+        offs.append(len(out))
+        out += b"%d 0 obj\n" % i + body + b"\nendobj\n"
+    xref = len(out)
+    out += b"xref\n0 %d\n0000000000 65535 f \n" % (len(objs) + 1)
+    for o in offs:
+        out += b"%010d 00000 n \n" % o
+    out += b"trailer\n<< /Size %d /Root 1 0 R >>\nstartxref\n%d\n%%%%EOF\n" % (len(objs) + 1, xref)
+    return bytes(out)
+
+
+def degenerate_input(name):
+    """(registry format, bytes) of a well-formed container that lacks the main part its extractor looks for."""
+    from .docrun import render
+    if name == "mhtml-nohtml":
+        return "mhtml", _mime([(b'text/plain; charset="utf-8"', b"zq0001x saved resource\n", b"Content-Location: http://example.invalid/a.txt\r\n"),
+                               (b"image/gif", _GIF, b"Content-Location: http://example.invalid/a.gif\r\n")])
+    if name == "mhtml-onlyimage":
+        return "mhtml", _mime([(b"image/gif", _GIF, b"Content-Location: http://example.invalid/a.gif\r\n")])
+    if name == "eml-nobody":
+        return "eml", (b"From: a@example.invalid\r\nTo: b@example.invalid\r\nSubject: zq0001x\r\n"
+                       b"Date: Mon, 1 Jan 2024 00:00:00 +0000\r\nMessage-ID: <1@example.invalid>\r\n\r\n")
+    if name == "eml-onlyattachment":
+        return "eml", _mime([(b'application/octet-stream; name="a.bin"', b"\x00\x01\x02", b'Content-Disposition: attachment; filename="a.bin"\r\n')],
+                            "mixed", b"To: b@example.invalid\r\nDate: Mon, 1 Jan 2024 00:00:00 +0000\r\n")
+    if name == "mbox-onemessage-nobody":
+        return "mbox", (b"From a@example.invalid Mon Jan  1 00:00:00 2024\nFrom: a@example.invalid\nTo: b@example.invalid\n"
+                        b"Subject: zq0001x\nDate: Mon, 1 Jan 2024 00:00:00 +0000\n\n\n")
+    if name in ("xlsx-emptysheet", "ods-emptysheet"):
+        f = name.split("-")[0]
+        return f, render({"kind": "book", "props": {}, "sheets": [{"name": "zq0001x", "name_id": 1, "rows": [], "images": []}]}, f)
+    if name == "pdf-zeropages":
+        return "pdf", _pdf_pages(0)
+    if name == "pdf-emptypage":
+        return "pdf", _pdf_pages(1)
+    if name in ("docx-nobody", "odt-nobody"):
+        f = name.split("-")[0]
+        return f, render({"kind": "flow", "blocks": [], "header": [], "footer": [], "props": {}}, f)
+    if name == "pptx-noslides":
+        return "pptx", render({"kind": "deck", "props": {}, "slides": []}, "pptx")
+    if name == "odp-nopages":
+        return "odp", render({"kind": "deck", "props": {}, "slides": []}, "odp")
+    if name == "html-empty":
+        return "html", b""
+    if name == "html-onlyhead":
+        return "html", b"<!DOCTYPE html><html><head><title>zq0001x</title></head></html>"
+    if name == "rtf-empty":
+        return "rtf", b"{\\rtf1}"
+    if name == "txt-newline":
+        return "txt", b"\n"
+    if name == "csv-empty":
+        return "csv", b""
+    if name == "json-empty":
+        return "json", b"{}"
+    if name == "md-blank":
+        return "md", b"   \n\n"
+    if name == "epub-nochapters":
+        pkg = render({"kind": "flow", "blocks": [["p", [["r", 1]]]], "header": [], "footer": [], "props": {"title": "zq0002x"}}, "epub")
+        import re
+
+        def edit(part, data):
+            if part.endswith(".opf"):
+                return re.sub(rb"<spine>.*?</spine>", b"<spine></spine>", data, flags=re.S)
+            return data
+        return "epub", _rezip(pkg, edit)
+    if name == "zip-emptymember":
+        import zipfile
+        buf = io.BytesIO()
+        with zipfile.ZipFile(buf, "w") as z:
+            z.writestr("empty.txt", b"")
+            z.writestr("dir/also-empty.md", b"")
+        return "zip", buf.getvalue()
+    raise ValueError(name)
+
+
+# ----------------------------------------------------------------------------- names of the containers of units
+NAME_VALUE = {"absent": None, "empty": "", "blank": " ", "one": "x", "long31": "zq" + "n" * 29, "nonascii": "Übersicht 表 №1"}
+
+
+def name_variant(pkg: bytes, fmt, which, kind) -> bytes:
+    """Post-process the shared writer's package: the naming attribute of the first / of every unit container
+    (sheet, page, slide, chapter) is absent / empty / ... / non-ASCII."""
+    import re
+    v = NAME_VALUE[kind]
+    n = [0]
+
+    def attr_sub(tag_re, attr):
+        def one(m):
+            n[0] += 1
+            if which == "first" and n[0] > 1:
+                return m.group(0)
+            val = v if (v is None or which == "first" or kind in ("absent", "empty", "blank")) else f"{v}{n[0]}"[-31:]
+            return _set_attr(m.group(0), attr, val)
+        return lambda x: re.sub(tag_re, one, x)
+
+    def edit(part, data):
+        if fmt == "ods" and part == "content.xml":
+            return attr_sub(r"<table:table\b[^>]*>", "table:name")(data.decode("utf-8")).encode("utf-8")
+        if fmt in ("odp", "odg") and part == "content.xml":
+            return attr_sub(r"<draw:page\b[^>]*>", "draw:name")(data.decode("utf-8")).encode("utf-8")
+        if fmt == "xlsx" and part == "xl/workbook.xml":
+            return attr_sub(r"<sheet\b[^>]*/>", "name")(data.decode("utf-8")).encode("utf-8")
+        if fmt == "pptx" and re.fullmatch(r"ppt/slides/slide\d+\.xml", part):
+            return attr_sub(r"<p:cSld\b[^>]*>", "name")(data.decode("utf-8")).encode("utf-8")
+        if fmt == "epub" and part.endswith(".xhtml"):
+            x = data.decode("utf-8")
+            n[0] += 1
+            if which == "first" and n[0] > 1:
+                return data
+            x = re.sub(r"<title>.*?</title>", "", x, flags=re.S)
+            if v is not None:
+                x = x.replace("<head>", f"<head><title>{_xesc(v)}</title>", 1)
+            return x.encode("utf-8")
+        return data
+    out = _rezip(pkg, edit)
+    if n[0] == 0:
+        raise ValueError(f"no unit container found in the {fmt} package (writer changed?)")
+    return out
